@@ -215,13 +215,52 @@ def vector_scenarios(tier, seed):
     return out
 
 
+def hnsw_models(tier):
+    """Hnsw.tla: the index as implemented, exhaustively for small constants; the pinned variants must fail"""
+    runs = {}
+    for cfg in ["MC_Hnsw_NoReinsert", "MC_Hnsw_Grid", "MC_Hnsw_RepairedQuick" if tier == "quick" else "MC_Hnsw_Repaired"]:
+        r = model_run("MC_Hnsw", cfg, tier, "hnsw-" + cfg, workers=6, timeout=3000)
+        runs[cfg] = {"holds": True, "states": r["states"], "transitions": r["transitions"]}
+    for cfg in ["MC_HnswNeg_Pinned", "MC_HnswNeg_SkipSelfOnly"]:
+        r = model_run("MC_Hnsw", cfg, tier, "hnsw-" + cfg, workers=4, timeout=1200, must_hold=False)
+        if r.get("violated") != "ExactWhenSmall":
+            raise ToolError("Hnsw sensitivity: %s must violate ExactWhenSmall, got %r" % (cfg, r.get("violated")))
+        runs[cfg] = {"holds": False, "violated": r["violated"], "states": r["states"]}
+    return runs
+
+
+def hnsw_behaviours(tier, seed):
+    """behaviours of the model (insertions with their levels, re-insertions) with the model's own answers"""
+    n = 60 if tier == "quick" else 1500
+    r = model_run("GenHnsw", "Gen_Hnsw", tier, "hnsw-gen-%d" % seed, workers=1, timeout=1800,
+                  must_hold=False,
+                  extra=["-simulate", "num=%d" % n, "-depth", "10", "-seed", str(1000 + seed)])
+    out = []
+    for i, b in enumerate(r.get("replay") or []):
+        steps = [{"op": "nodes", "n": 5}]
+        for (nid, v, lvl) in b["ops"]:
+            steps.append({"op": "setvec", "commit": True, "items": [[nid, v]], "levels": [lvl]})
+        want = {}
+        for (q, k, ans) in b["answers"]:
+            steps.append({"op": "search", "q": q, "k": k})
+            want[json.dumps([q, k])] = [a[1] for a in ans]
+        steps.append({"op": "reopen"})
+        for (q, k, ans) in b["answers"][:2]:
+            steps.append({"op": "search", "q": q, "k": k})
+        out.append({"id": "hnsw/%d" % i, "m": b["m"], "steps": steps, "model_answers": want})
+    if not out:
+        raise ToolError("Gen_Hnsw produced no behaviours")
+    return out
+
+
 @reg("C31")
 def c31(tier, seed, replay):
     t0 = time.time()
     vlib.build_harness()
+    models = hnsw_models(tier)
     cd = cache_dir("vectors", tier, seed)
     os.makedirs(cd, exist_ok=True)
-    scenarios = [json.load(open(replay))["scenario"]] if replay else vector_scenarios(tier, seed)
+    scenarios = [json.load(open(replay))["scenario"]] if replay else vector_scenarios(tier, seed) + hnsw_behaviours(tier, seed)
     ip, tp = os.path.join(cd, "scenarios.ndjson"), os.path.join(cd, "trace.ndjson")
     res_p = os.path.join(cd, "result.json")
     if os.path.exists(res_p) and not replay:
@@ -240,6 +279,23 @@ def c31(tier, seed, replay):
             ids[i] = cur
         for f in findings:
             f["id"] = ids.get(f.get("at"))
+        # conformance of the implementation-shaped model: the real index, driven with the model's levels, must give the
+        # model's own answers (ids in order).  Drift is reported in the evidence; the property verdict is KnnTrace's.
+        conf = {"searches_compared": 0, "equal": 0, "drift": []}
+        by = {s_["id"]: s_ for s_ in scenarios}
+        for i, l in enumerate(lines, 1):
+            e = json.loads(l)
+            sc = by.get(ids.get(i)) or {}
+            if e.get("op") == "search" and "model_answers" in sc:
+                key = json.dumps([e["st"]["q"], e["st"]["k"]])
+                want = sc["model_answers"].get(key)
+                if want is not None:
+                    got = [h[0] for h in e["info"]["hits"]]
+                    conf["searches_compared"] += 1
+                    if got == want:
+                        conf["equal"] += 1
+                    elif len(conf["drift"]) < 5:
+                        conf["drift"].append({"id": sc["id"], "q": e["st"]["q"], "k": e["st"]["k"], "model": want, "engine": got})
         selftest = {"ran": False}
         if not replay:
             dirty = {f["at"] for f in findings}
@@ -272,18 +328,23 @@ def c31(tier, seed, replay):
                 done.append(want)
                 os.remove(sp)
             selftest = {"ran": True, "rejected": done}
-        saved = {"stats": stats, "findings": findings, "info": info, "selftest": selftest}
+        saved = {"stats": stats, "findings": findings, "info": info, "selftest": selftest, "conformance": conf}
         json.dump(saved, open(res_p, "w"))
     by_id = {s["id"]: s for s in scenarios}
     nv, nk = generic_verdict("C31", saved["findings"], lambda f: {"property": "C31", "finding": f, "scenario": by_id.get(f.get("id"))})
     st = saved["stats"]
-    cov = {"states": saved["info"].get("distinct", 0), "transitions": saved["info"].get("states_generated", 0),
+    cov = {"states": saved["info"].get("distinct", 0) + sum(m.get("states", 0) for m in models.values()),
+           "transitions": saved["info"].get("states_generated", 0),
+           "model": models, "model_conformance": saved.get("conformance"),
            "traces_validated_against_impl": len(scenarios), "evaluations": st.get("searches", 0),
            "distinct_nontrivial": sum(1 for s in scenarios for x in s["steps"] if x["op"] in ("reopen", "compact")),
            "rule": "vector sets with integer coordinates in -6..6 (ties, duplicates, re-insertions, deleted nodes, vectors written by dropped "
                    "transactions), link count M in {2,3,4,16}; searches with k in {1,2,3,5,10,50}; every search is judged for size, distinctness, "
                    "liveness, exact distance, order, exactness while the index holds <= 2M+1 vectors, and equality with the same search before a "
-                   "reopen / compaction; non-trivial = reopen / compaction steps followed by a repeated search",
+                   "reopen / compaction; non-trivial = reopen / compaction steps followed by a repeated search.  Hnsw.tla (the index as "
+                   "implemented: layered greedy descent, ef-bounded layer search, top-M selection, back links truncated at 2M) is checked "
+                   "exhaustively for 4-5 nodes, M in {1,2}, levels 0..1 with re-insertion; its simulated behaviours (with the levels it chose) "
+                   "are replayed on the real index through the level hook and compared with the model's own answers",
            "harness_stats": st, "binding_selftest": saved["selftest"], "known_findings_seen": nk,
            "samples": [s["steps"][:5] for s in scenarios[:2]]}
     vlib.write_evidence("C31", tier, seed, "model_checking", cov, time.time() - t0, nv,
